@@ -20,7 +20,7 @@ DecodeReason(e) ==
   ELSE IF e.head # (e.want.S = 1) THEN "partition_head"
   ELSE ""
 PayloadReason(e, id) ==
-  LET frame == Pat(e.len, e.salt) IN
+  LET frame == IF e.fillv < 0 THEN Pat(e.len, e.salt) ELSE Fill(e.len, e.fillv) IN
   IF e.res # "ok" THEN "payload_panic"
   ELSE IF \E j \in 1..Len(e.decoded) : e.decoded[j].res # "ok" THEN "own_output_rejected"
   ELSE IF \E j \in 1..Len(e.frags) : LET r == RefDecode(e.frags[j]) IN ~r.ok \/ r.f # e.decoded[j].f THEN "decoder_disagrees_with_reference"
